@@ -149,6 +149,25 @@ def tlc(module, cfg, name=None, workers=None, timeout=1800, extra=(),
     return res
 
 
+def apalache(module, cinit, init, inv, length, name, timeout=900):
+    """apalache-mc check on spec/<module>.tla; returns 'ok' | 'violated'; Machinery on anything else"""
+    wd = workdir('apa-' + name)
+    cmd = ['apalache-mc', 'check', '--cinit=' + cinit, '--init=' + init, '--inv=' + inv, '--length=%d' % length,
+           '--out-dir=' + os.path.join(wd, 'out'), os.path.join(SPEC, module + '.tla')]
+    try:
+        p = subprocess.run(cmd, cwd=wd, capture_output=True, text=True, timeout=timeout)
+    except subprocess.TimeoutExpired:
+        raise Machinery('Apalache timeout on %s (%s)' % (module, name))
+    finally:
+        shutil.rmtree(os.path.join(wd, 'out'), ignore_errors=True)
+    out = p.stdout + p.stderr
+    if 'The outcome is: NoError' in out:
+        return 'ok'
+    if 'The outcome is: Error' in out and 'invariant' in out and 'violated' in out:
+        return 'violated'
+    raise Machinery('Apalache failed on %s (%s): %s' % (module, name, out[-1500:]))
+
+
 # ------------------------------------------------------------ known findings
 
 def known_findings(pid):
